@@ -107,6 +107,14 @@ def make(prop: str):
                 {'scenario': {k: scn[k] for k in ('config', 'steps', 'meta') if k in scn}, 'found_in': where,
                  'observed_tail': life.brief(obs)[-25:]}))
             return
+        if prop != 'C02' and scn.get('meta', {}).get('outcome') in ('hard', 'terminate', 'kill') and \
+                any(o.get('k') in ('await_timeout', 'scenario_timeout') for o in obs):
+            # the recorded finding of C02/C17 (the child died abruptly with a queue lock held and the run never
+            # finishes) struck in this scenario: it is reported by C02 under its own signature; for this property
+            # the history is inconclusive
+            corr.extra.setdefault('abrupt_death_hangs_not_judged', 0)
+            corr.extra['abrupt_death_hangs_not_judged'] += 1
+            return
         p = O.runner_problem(obs)
         if p is not None and p.get('k') in ('runner_dead', 'runner_error'):
             corr.extra.setdefault('runner_problems', 0)
